@@ -360,6 +360,20 @@ def twin_case(res):
         res.count("twin_cases")
         if got != want:
             res.violation("identical-functions-in-two-modules-conflated", f"logged {got}, expected {want}", {"twin": True})
+        # a filter that tells the twins apart by file: the copy it rejects runs first in one block and second in the next
+        for order in ("rejected-first", "admitted-first"):
+            lg = make_logger()
+            afile = a.__file__
+            with trace_calls(lg, 0, lambda code: code.co_filename == afile):
+                for mod in ((b, a) if order == "rejected-first" else (a, b)):
+                    mod.helper(mod.P())
+                    mod.K().m(mod.Q())
+            got = [(t.func.__module__, t.func.__qualname__) for t in lg.traces]
+            want = [("vftwin_a", "helper"), ("vftwin_a", "K.m")]
+            res.count("evaluations")
+            res.count("twin_cases_with_a_filter_that_tells_them_apart")
+            if got != want:
+                res.violation("filter-verdict-of-one-file-applied-to-its-twin", f"{order}: logged {got}, expected {want}", {"twin": True, "order": order})
     finally:
         sys.path.remove(d)
         sys.modules.pop("vftwin_a", None)
